@@ -90,6 +90,11 @@ def gen_case(sim):
         fault = ["short_reads"]
     elif fk == 5:
         fault = ["cut", "write" if is_put else "read", sim.choose(nchunks + 1), ("eof", "reset")[sim.choose(2)]]
+    elif fk == 6:
+        # the link is lost at an instant unrelated to the server's progress (virtual microseconds after the
+        # start of the transfer), so that it can also fall between two requests, while the client is about to send
+        fault = ["cut_at", "any", (20, 100, 300, 1000, 3000, 10000, 40000, 150000)[sim.choose(8)] + sim.choose(97),
+                 ("eof", "reset")[sim.choose(2)]]
     return {"op": op, "size": size, "data_seed": sim.choose(1000), "fault": fault,
             "callback": bool(sim.choose(2)), "confirm": bool(sim.choose(2)), "prefetch": bool(sim.choose(3)),
             "cap": (None, None, 1, 3, 64)[sim.choose(5)], "bufsize": (-1, 0, 1, 1024, 65536)[sim.choose(5)],
@@ -169,6 +174,15 @@ def run_case(sim, s, faults, case, idx):
             faults.p_short_read = 0.4
         elif f[0] == "cut":
             faults.cut_at = (f[1], f[2], f[3])
+        elif f[0] == "cut_at":
+            timed = {"fired": False}
+
+            def timed_cut(kind=f[3]):
+                if not timed["done"]:
+                    timed["fired"] = True
+                    s.link.cut(None, kind)
+            timed["done"] = False
+            sim.after(f[2] * 1e-6, timed_cut)
     calls = []
     cb = (lambda a, b: calls.append((a, b))) if case["callback"] else None
     box = {}
@@ -211,7 +225,10 @@ def run_case(sim, s, faults, case, idx):
                         % (op, size, f, T_END, core.where_parked(task)), details)
     sim.probe("transfers")
     sim.probe("op_" + op)
+    if f and f[0] == "cut_at":
+        timed["done"] = True        # a cut that has not fired by now is cancelled
     fired = (f and ((f[0] == "reject" and faults.log) or (f[0] == "cut" and faults.cut_at is None)
+                    or (f[0] == "cut_at" and timed["fired"])
                     or (f[0] == "short_reads" and sim.faults.get("short_read"))))
     if fired:
         sim.probe("fault_fired_" + f[0])
@@ -221,7 +238,7 @@ def run_case(sim, s, faults, case, idx):
             # nothing was injected (or the fault position was never reached): the transfer had to work
             raise Violation(("C29", "transfer-failed-without-fault", describe(case), type(box["exc"]).__name__),
                             "%s of %d bytes raised %r although no fault fired" % (op, size, box["exc"]), details)
-        return f[0] != "cut" and s.p.tc.is_active()
+        return f[0] not in ("cut", "cut_at") and s.p.tc.is_active()
     sim.probe("returned")
     if is_put:
         with open(rp, "rb") as fh:
@@ -248,7 +265,7 @@ def run_case(sim, s, faults, case, idx):
         if not calls or calls[-1][0] != size:
             raise Violation(("C29", "callback-total-wrong", describe(case)),
                             "%s of %d bytes: last callback reported %r" % (op, size, calls[-1] if calls else None), details)
-    return f is None or f[0] != "cut"
+    return f is None or f[0] not in ("cut", "cut_at") or not fired
 
 
 def on_hang(sim, exc):
